@@ -32,7 +32,7 @@ def run(rep):
                        "T2: all assignments of <= k calls to 3 names x 3 types x 2 plugins, under all 4 flag combinations, "
                        "reserved names / file split chosen at random per package, + random packages of 5..12 calls over 8 types "
                        "and 3 plugins with injected conflicts and duplicates; distinct = distinct (package, flags) runs whose "
-                       "package has at least two calls handled by the same plugin")
+                       "package contains at least one conflict or duplicate")
     rep.assumptions += [
         "the argument types of the T2 packages are pairwise non-assignable unless identical (the property's own domain; "
         "the T3 stream over assignable types checks model = code outside it)",
@@ -56,8 +56,7 @@ def run(rep):
             stat["failed_run_rewrote_a_file"] += 1
         if names.spec_verdict(case, variant) is None:
             stat["spec_says_nothing"] += 1
-        hs = [h["name"] for f in case["files"] for c in f["calls"] for h in [names.handler(case, c["name"])] if h]
-        if len(hs) != len(set(hs)):
+        if any(names.clashes(case)):
             stat["nontrivial"] += 1
         spec, corr = names.compare_case(case, variant, obs, model)
         if spec:
@@ -77,7 +76,7 @@ def run(rep):
     for what, case, variant, obs, line in spec_bad[:3]:
         rep.violation("C11 fails on the real goderive: " + what,
                       {"kind": "t2", "case": case, "variant": variant, "observed": obs, "model_line": line,
-                       "cmd": "goderive %s ./p  (package re-materialised by `gennames -mode one`)" % " ".join(case.get("goderive_args", []))}, True)
+                       "cmd": "goderive %s ./p  (package re-materialised by `gennames -mode one`)" % " ".join((case.get("goderive_args") or []))}, True)
     spec_ids = set((c["id"], v) for _, c, v, _, _ in spec_bad)
     rest = [x for x in corr_bad if (x[1]["id"], x[2]) not in spec_ids]
     if rest:
